@@ -362,6 +362,7 @@ class World:
         self.bare_log: list[Any] = []
         self.models = [Model(cfg)] + ([Model(cfg, obs_major=False)] if kind == "async" else [])
         self.last_effect = False  # skipped by state_key
+        self.last_fired = False  # skipped by state_key
         self.diff: tuple[str, str] | None = None  # skipped by state_key
 
     # -- real side
@@ -402,6 +403,7 @@ class World:
     def apply(self, ev: tuple) -> None:
         ev = tuple(ev)
         before = self.effects()
+        armed = [r.armed for r in self.recs]
         try:
             self._real(ev)
         except Exception as e:  # raised to the caller of the subject method
@@ -409,6 +411,7 @@ class World:
         if self.sched is not None:
             self.sched.quiesce()
         self.last_effect = self.effects() > before
+        self.last_fired = armed != [r.armed for r in self.recs]
         for m in self.models:
             m.apply(ev)
         self._judge()
@@ -471,7 +474,7 @@ class World:
                 "expected_logs": [repr(l) for l in self.models[0].logs], "expected_raised": list(self.models[0].raised)}
 
 
-_SKIP = frozenset({"last_effect", "diff"})
+_SKIP = frozenset({"last_effect", "last_fired", "diff"})
 
 
 def state_key(w: World) -> str:
@@ -591,8 +594,14 @@ def explore(part: core.Part, cfg: dict, depth: int, deadline: float, seed: int) 
 
     def check(w: World, h: list) -> str | None:
         d = w.verdict()
-        part.case((tag, repr(h)), w.last_effect, outcome=(repr(w.real_logs()), tuple(w.raised)),
-                  sample={"config": tag, "history": h, "observed": w.show()["logs"], "raised": list(w.raised)})
+        smp = None
+        if len(part.samples) < 2 and len(h) >= 4 and w.last_effect:  # samples: actual non-trivial histories with what was observed
+            smp = {"config": tag, "history": h, "observed_logs": w.show()["logs"], "raised_to_caller": list(w.raised)}
+        part.case((tag, repr(h)), w.last_effect, outcome=(repr(w.real_logs()), tuple(w.raised)), sample=smp)
+        if w.last_fired:
+            part.count("transitions_with_reentrant_script_action")
+        if h[-1][0] == "sub" and w.models[0].phase() != "open":
+            part.count("transitions_late_subscription")
         if d is None:
             return None
         sig = signature(cfg, w, h, d[0])
@@ -609,20 +618,64 @@ def explore(part: core.Part, cfg: dict, depth: int, deadline: float, seed: int) 
         part.count("closed_instances")  # nothing left to expand: every longer history reaches a visited state
     if not res.complete:
         part.complete = False
-    for h in res.samples[:1]:
-        if len(part.samples) < 2:
-            part.samples.append(core.jsonable({"config": tag, "history": h}))
+    if not part.samples and res.samples:
+        part.samples.append(core.jsonable({"config": tag, "history": res.samples[-1]}))
     return res
 
 
+def _suffix(after: World, before: World) -> tuple:
+    la, lb = after.real_logs(), before.real_logs()
+    return tuple(tuple(la[i][len(lb[i]):]) for i in range(NOBS)), tuple(after.raised[len(before.raised):])
+
+
+def audit_merges(part: core.Part, cfg: dict, depth: int, deadline: float) -> None:
+    """Self-check of the (log-free) state key on this heap: a second BFS of one
+    configuration in which, for every merge, the merged history h and the representative
+    r of its state are both extended by every enabled event; the menus, what each event
+    appends to the logs / raises, the verdicts and the successor keys must coincide.  A
+    discrepancy is an error of the harness (AssertionError -> HARNESS-ERROR), not a verdict."""
+    import time
+
+    rep: dict[str, list] = {}
+    last: dict[str, list] = {"h": []}
+
+    def check(w: World, h: list) -> str | None:
+        last["h"] = h
+        return w.verdict() and w.verdict()[1]
+
+    def key(w: World) -> str:
+        k = state_key(w)
+        h = list(last["h"])
+        r = rep.setdefault(k, h)
+        if r != h and time.time() < deadline:
+            wr, wh = build(cfg, r), build(cfg, h)
+            er, eh = enabled(wr), enabled(wh)
+            assert er == eh, f"merge audit: menus differ after {r} / {h}: {er} / {eh}"
+            for e in er:
+                a, b = build(cfg, r + [e]), build(cfg, h + [e])
+                same = _suffix(a, wr) == _suffix(b, wh) and (a.verdict() is None) == (b.verdict() is None) and state_key(a) == state_key(b)
+                assert same, f"merge audit: {cfg_tag(cfg)}: histories {r} and {h} were merged but differ on {e}: {_suffix(a, wr)} / {_suffix(b, wh)}"
+            part.count("merge_audits")
+        return k
+
+    hbfs.bfs(lambda h: build(cfg, h), lambda h, w: enabled(w), check, key, depth, deadline)
+    part.count("audited_instances")
+
+
 def shard_entry(part: core.Part, shard: int, nshards: int, tier: str, seed: int, deadline: float, cfgs: list, depths: list) -> None:
-    """ctx.sharded worker: configuration i belongs to shard i % nshards."""
+    """ctx.sharded worker: configuration i belongs to shard i % nshards.  A configuration
+    with "audit": depth is additionally run through audit_merges to that depth."""
     for i, cfg in enumerate(cfgs):
         if i % nshards == shard:
-            explore(part, cfg, depths[i], deadline, seed)
+            if cfg.get("audit"):
+                audit_merges(part, {k: v for k, v in cfg.items() if k != "audit"}, cfg["audit"], deadline)
+            else:
+                explore(part, cfg, depths[i], deadline, seed)
 
 
 def run_configs(ctx: core.Ctx, cfgs: list, depths: list) -> core.Part:
+    order = sorted(range(len(cfgs)), key=lambda i: 0 if cfgs[i].get("audit") else 1)  # the (slow) audits start first
+    cfgs, depths = [cfgs[i] for i in order], [depths[i] for i in order]
     part = ctx.sharded(shard_entry, extra=(cfgs, depths), nshards=len(cfgs))
     c = part.counters
     ctx.cov["states"] = c.get("states", 0)
@@ -631,6 +684,9 @@ def run_configs(ctx: core.Ctx, cfgs: list, depths: list) -> core.Part:
     ctx.cov["merges"] = c.get("merges", 0)
     ctx.cov["max_depth"] = max([int(k.split(":")[1]) for k in c if k.startswith("max_depth:")] or [0])
     ctx.cov["bfs_instances"] = c.get("bfs_instances", 0)
+    ctx.cov["merge_audits"] = c.get("merge_audits", 0)
+    ctx.cov["transitions_with_reentrant_script_action"] = c.get("transitions_with_reentrant_script_action", 0)
+    ctx.cov["transitions_late_subscription"] = c.get("transitions_late_subscription", 0)
     ctx.cov["instances_closed_before_depth_bound"] = c.get("closed_instances", 0)
     return part
 
